@@ -416,3 +416,31 @@ def rule_preserve_open(repo, res):
                                 "not recognised as a comment (its opener is taken for something else), so inserting it where white space is "
                                 "allowed breaks the label", where=f"pvl/lexer.py:{st.lineno}"))
     res.floor("comment-opening returns in the lexer helpers", n, 1)
+
+
+def rule_lex_text(repo, res):
+    """LEX-TEXT: the lexer walks the text it was given: the text parameter of lexer() is never rebound (no
+    `s = s.replace(...)`, `s = s.strip()` ...) and the character loop enumerates that parameter.  Token positions are
+    indices into the caller's text -- the parser counts lines and looks for '=' in *its* copy with them, and LexerError
+    reports pos/lineno/colno against it -- so a private, rewritten copy shifts every position after the first rewrite,
+    and changes what stands inside quoted strings."""
+    import ast
+    fn = repo.full_function("lexer", "lexer")
+    params = [a.arg for a in fn.args.args]
+    if not params:
+        raise AnalysisError("anchor vanished: the text parameter of lexer.lexer")
+    text = params[0]
+    rebound = [x for x in ast.walk(fn) if isinstance(x, (ast.Assign, ast.AugAssign, ast.AnnAssign))
+               and any(isinstance(t, ast.Name) and t.id == text for t in (x.targets if isinstance(x, ast.Assign) else [x.target]))]
+    loops = [x for x in ast.walk(fn) if isinstance(x, ast.For) and isinstance(x.iter, ast.Call) and norm(x.iter.func) == "enumerate"
+             and x.iter.args and isinstance(x.iter.args[0], ast.Name)]
+    res.floor("character loops of lexer()", len(loops), 1)
+    ok = not rebound and all(l.iter.args[0].id == text for l in loops)
+    res.oblige("LEX-TEXT", f"lexer() enumerates its text parameter `{text}` itself; the parameter is never rebound", ok=ok)
+    if not ok:
+        what = f"`{norm(rebound[0], 60)}`" if rebound else f"the loop runs over `{norm(loops[0].iter.args[0])}`"
+        res.add(Finding("LEX-TEXT", "lexer.lexer", "the lexer works on a rewritten copy of the text",
+                        f"lexer(): {what}: token positions (and the positions in LexerError) then index a private copy of the text, "
+                        "not the text the caller holds -- line numbers of missing values and error columns drift after the first "
+                        "rewritten place, and characters inside quoted strings are changed",
+                        where=f"pvl/lexer.py:{(rebound[0] if rebound else loops[0]).lineno}"))
